@@ -2,7 +2,9 @@ package connectconformance
 
 // C07 — suite expansion selects, names and populates permutations per suite
 // directives. Bounded-exhaustive ENUM harness around the real
-// newTestCaseLibrary / casesByServer / allPermutations / filterGRPCImplTestCases.
+// newTestCaseLibrary / casesByServer / allPermutations / filterGRPCImplTestCases;
+// phase I reaches newTestCaseLibrary the way Run does, through suite files,
+// testsuites.LoadTestSuitesFromFiles and parseTestSuites (c07Input.Route).
 //
 // The reference model below (c07Exists, c07Name, c07Default*, c07GRPC*) is
 // written from the property statement, proto/connectrpc/conformance/v1/suite.proto,
@@ -24,8 +26,10 @@ import (
 	"testing"
 	"time"
 
+	"connectrpc.com/conformance/internal/app/connectconformance/testsuites"
 	conformancev1 "connectrpc.com/conformance/internal/gen/proto/go/connectrpc/conformance/v1"
 	"connectrpc.com/conformance/internal/verif/rep"
+	"google.golang.org/protobuf/encoding/protojson"
 )
 
 // ---------------------------------------------------------------------------
@@ -85,6 +89,23 @@ type c07Input struct {
 	// Shapes: an element of phase F (pairs of suites with path-shaped names),
 	// judged by c07EvaluateShapes.
 	Shapes bool `json:"shapes,omitempty"`
+	// Route (phase I): how the suites reach newTestCaseLibrary. "" = the suite
+	// messages are handed over directly, keyed by Suites[i].File; "parse" = each
+	// suite is rendered as a suite file and the map (File -> content) goes through
+	// the real parseTestSuites; "files" = the suite files are written to disk under
+	// a scratch directory at the relative paths Suites[i].File and go through the
+	// real testsuites.LoadTestSuitesFromFiles and parseTestSuites, as Run does for
+	// --test-file.
+	Route string `json:"route,omitempty"`
+	dir   string // scratch directory holding the written suite files (route "files")
+}
+
+// cleanup removes the suite files written for the route "files".
+func (in *c07Input) cleanup() {
+	if in.dir != "" {
+		_ = os.RemoveAll(in.dir)
+		in.dir = ""
+	}
 }
 
 type c07CfgSet struct {
@@ -358,6 +379,7 @@ func (in *c07Input) hasPrefill() bool {
 // stripped returns the same input with every pre-filled field left out.
 func (in *c07Input) stripped() *c07Input {
 	out := *in
+	out.dir = "" // other file contents
 	out.Suites = make([]c07Suite, len(in.Suites))
 	for i := range in.Suites {
 		out.Suites[i] = in.Suites[i]
@@ -449,17 +471,95 @@ func c07NewSet(label string, mirror []c07CC) *c07CfgSet {
 	return set
 }
 
+// c07SuiteFile renders a suite as the content of a suite file. The files are
+// YAML; JSON is a subset of YAML, and the canonical JSON form of the suite
+// message (field and enum names from the generated code) is used so that every
+// field of the alphabet - present-but-empty optional strings, pre-filled bytes
+// fields - is carried without a hand-written encoder.
+func c07SuiteFile(s *c07Suite) ([]byte, error) {
+	return protojson.MarshalOptions{Multiline: true, Indent: "  "}.Marshal(s.toProto())
+}
+
+// c07LoadSuites brings the suites of the input into the form newTestCaseLibrary
+// takes, along the input's route. variant permutes the order in which the paths
+// are given.
+func c07LoadSuites(in *c07Input, variant int) (map[string]*conformancev1.TestSuite, error) {
+	if in.Route == "" {
+		suites := make(map[string]*conformancev1.TestSuite, len(in.Suites))
+		for i := range in.Suites {
+			suites[in.Suites[i].File] = in.Suites[i].toProto()
+		}
+		return suites, nil
+	}
+	contents := make([][]byte, len(in.Suites))
+	for i := range in.Suites {
+		data, err := c07SuiteFile(&in.Suites[i])
+		if err != nil {
+			panic(fmt.Sprintf("c07 harness: cannot render suite %d: %v", i, err))
+		}
+		contents[i] = data
+	}
+	var fileData map[string][]byte
+	switch in.Route {
+	case "parse":
+		fileData = make(map[string][]byte, len(in.Suites))
+		for i := range in.Suites {
+			fileData[in.Suites[i].File] = contents[i]
+		}
+	case "files":
+		if in.dir == "" {
+			dir, err := os.MkdirTemp(os.Getenv("VERIF_WORKDIR"), "c07-files-")
+			if err != nil {
+				panic(fmt.Sprintf("c07 harness: %v", err))
+			}
+			in.dir = dir
+			for i := range in.Suites {
+				full := filepath.Join(dir, filepath.FromSlash(in.Suites[i].File))
+				if err := os.MkdirAll(filepath.Dir(full), 0o755); err != nil {
+					panic(fmt.Sprintf("c07 harness: %v", err))
+				}
+				if err := os.WriteFile(full, contents[i], 0o644); err != nil {
+					panic(fmt.Sprintf("c07 harness: %v", err))
+				}
+			}
+		}
+		paths := make([]string, 0, len(in.Suites))
+		for i := range in.Suites {
+			j := (i + variant) % len(in.Suites)
+			if variant == 1 {
+				j = len(in.Suites) - 1 - i
+			}
+			paths = append(paths, filepath.Join(in.dir, filepath.FromSlash(in.Suites[j].File)))
+		}
+		var err error
+		fileData, err = testsuites.LoadTestSuitesFromFiles(paths)
+		if err != nil {
+			return nil, fmt.Errorf("LoadTestSuitesFromFiles: %w", err)
+		}
+	default:
+		panic("c07 harness: unknown route " + in.Route)
+	}
+	suites, err := parseTestSuites(fileData)
+	if err != nil {
+		return nil, fmt.Errorf("parseTestSuites: %w", err)
+	}
+	return suites, nil
+}
+
 // c07Expand runs the real expansion once on fresh suite messages; the config
 // cases (a set) are handed over in a rotated / reversed order.
 func c07Expand(in *c07Input, cfg []configCase, variant int) (lib *testCaseLibrary, err error, panicked any) {
 	defer func() {
 		if p := recover(); p != nil {
+			if msg, ok := p.(string); ok && strings.HasPrefix(msg, "c07 harness:") {
+				panic(p)
+			}
 			panicked = p
 		}
 	}()
-	suites := make(map[string]*conformancev1.TestSuite, len(in.Suites))
-	for i := range in.Suites {
-		suites[in.Suites[i].File] = in.Suites[i].toProto()
+	suites, err := c07LoadSuites(in, variant)
+	if err != nil {
+		return nil, err, nil
 	}
 	ordered := cfg
 	if variant > 0 && len(cfg) > 1 {
@@ -791,7 +891,9 @@ func c07Evaluate(in *c07Input, set *c07CfgSet, reps int, verbose bool) c07Result
 	// markers and the receive limit, server groups) is the one of the same
 	// suite without them, i.e. determined by the config case alone.
 	if in.hasPrefill() {
-		plain, errPlain, panickedPlain := c07Expand(in.stripped(), set.Real, 0)
+		plainIn := in.stripped()
+		plain, errPlain, panickedPlain := c07Expand(plainIn, set.Real, 0)
+		plainIn.cleanup()
 		switch {
 		case panickedPlain != nil:
 			bad("panic", "expansion of the suite without pre-filled fields panicked: %v", panickedPlain)
@@ -800,6 +902,26 @@ func c07Evaluate(in *c07Input, set *c07CfgSet, reps int, verbose bool) c07Result
 		default:
 			if with, without := c07Snapshot(lib), c07Snapshot(plain); with != without {
 				bad("prefilled-field-survives", "expansion depends on runner-owned request fields pre-filled in the suite (with vs without them): %s", c07FirstDiff(with, without))
+			}
+		}
+	}
+
+	// ---- two routes, one result: the library built from suite files (what Run
+	// does) is the one newTestCaseLibrary builds from the same suites handed over
+	// directly - the statement speaks about suites, not about where they are stored.
+	if in.Route != "" {
+		direct := *in
+		direct.Route, direct.dir = "", ""
+		viaDirect, errDirect, panickedDirect := c07Expand(&direct, set.Real, 0)
+		switch {
+		case panickedDirect != nil:
+			bad("panic", "newTestCaseLibrary called directly with the suites panicked: %v", panickedDirect)
+		case errDirect != nil || viaDirect == nil:
+			bad("route-differs", "route %q yields a library, newTestCaseLibrary called directly with the same suites fails: %v", in.Route, errDirect)
+		default:
+			if a, b := c07Snapshot(lib), c07Snapshot(viaDirect); a != b {
+				bad("route-differs", "the library built along route %q (%d permutations) differs from newTestCaseLibrary called directly with the same suites (%d permutations): %s",
+					in.Route, len(lib.testCases), len(viaDirect.testCases), c07FirstDiff(a, b))
 			}
 		}
 	}
@@ -1019,6 +1141,82 @@ func c07ShapeInputs() [][]c07Suite {
 							b.Cases = []c07TC{{Name: t2, Stream: stream2, Service: "custom.pkg.v1.OtherService", Method: "Other"}}
 							out = append(out, []c07Suite{a, b})
 						}
+					}
+				}
+			}
+		}
+	}
+	return out
+}
+
+// c07StreamCaseSets (phase H): a test case of every stream type in one suite
+// (default service / method), and the two bidi kinds next to a unary test with an
+// explicit service / method pair.
+func c07StreamCaseSets() [][]c07TC {
+	streamNames := map[int32]string{1: "unary", 2: "client-stream", 3: "server-stream", 4: "bidi-stream/half-duplex", 5: "bidi-stream/full-duplex"}
+	var every []c07TC
+	for s := int32(1); s <= 5; s++ {
+		every = append(every, c07TC{Name: streamNames[s] + "/success", Stream: s})
+	}
+	return [][]c07TC{
+		every,
+		{
+			{Name: streamNames[4] + "/explicit", Stream: 4, Service: "custom.pkg.v1.OtherService", Method: "Other4"},
+			{Name: streamNames[5] + "/explicit", Stream: 5, Service: "custom.pkg.v1.OtherService", Method: "Other5"},
+			{Name: streamNames[1] + "/success", Stream: 1},
+			{Name: streamNames[4] + "/second", Stream: 4},
+		},
+	}
+}
+
+// c07FileLoads (phase I): two or three suites, each in a file of its own, in
+// several directory layouts - one directory with distinct file names; the same
+// file name in different directories (client/basic.yaml, server/basic.yaml,
+// common/basic.yaml); nested directories; paths that are suffixes of one another;
+// a mix; names differing in case only. The suites have distinct names ("Common
+// Basic", "Client Basic", "Server Basic"), every assignment of modes, a few
+// directive shapes and test-case sets that share a test name across suites. The
+// statement is quantified over the suites given: where a suite is stored and what
+// its file is called decides nothing.
+func c07FileLoads() [][]c07Suite {
+	layouts := [][]string{
+		{"a.yaml", "b.yaml", "c.yaml"},
+		{"client/basic.yaml", "server/basic.yaml", "common/basic.yaml"},
+		{"suite.yaml", "v2/suite.yaml", "v2/x/suite.yaml"},
+		{"data/basic.yaml", "basic.yaml", "more/data/basic.yaml"},
+		{"x/a.yaml", "y/a.yaml", "y/b.yaml"},
+		{"Basic.yaml", "basic.yaml", "BASIC.yaml"},
+	}
+	names := []string{"Common Basic", "Client Basic", "Server Basic"}
+	cases := c07CaseSets(false) // [0] unary/success; [1] full-duplex + unary/success; [2] client-, server-stream, half-duplex
+	open := c07Suite{}
+	connect := c07Suite{Protocols: []int32{1}, Versions: []int32{1, 2}}
+	pinned := c07Suite{Versions: []int32{1}, Codecs: []int32{1}}
+	tlsLimit := c07Suite{TLS: true, Limit: true}
+	shapes2 := [][]c07Suite{{open, open}, {open, connect}, {pinned, tlsLimit}, {connect, pinned}}
+	shapes3 := [][]c07Suite{{open, open, open}, {connect, open, pinned}, {pinned, tlsLimit, connect}}
+	var out [][]c07Suite
+	build := func(layout []string, shape []c07Suite, modes []int32) {
+		load := make([]c07Suite, len(shape))
+		for i := range shape {
+			load[i] = shape[i]
+			load[i].File, load[i].Name, load[i].Mode, load[i].Cases = layout[i], names[i], modes[i], cases[i]
+		}
+		out = append(out, load)
+	}
+	for _, layout := range layouts {
+		for _, shape := range shapes2 {
+			for m0 := int32(0); m0 < 3; m0++ {
+				for m1 := int32(0); m1 < 3; m1++ {
+					build(layout, shape, []int32{m0, m1})
+				}
+			}
+		}
+		for _, shape := range shapes3 {
+			for m0 := int32(0); m0 < 3; m0++ {
+				for m1 := int32(0); m1 < 3; m1++ {
+					for m2 := int32(0); m2 < 3; m2++ {
+						build(layout, shape, []int32{m0, m1, m2})
 					}
 				}
 			}
@@ -1522,30 +1720,66 @@ func c07NamedSets(t *testing.T) []*c07CfgSet {
 	}
 	var out []*c07CfgSet
 	for _, s := range sources {
-		data := []byte(s.yaml)
-		if s.file != "" {
-			var err error
-			data, err = os.ReadFile(filepath.Join("..", "..", "..", "testing", s.file))
-			if err != nil {
-				data, err = os.ReadFile(filepath.Join(os.Getenv("VERIF_REPO"), "testing", s.file))
-			}
-			if err != nil {
-				t.Fatalf("cannot read shipped config %s: %v", s.file, err)
-			}
-		}
-		cases, err := parseConfig(s.label, data)
+		out = append(out, c07ParseSet(t, s.label, s.file, s.yaml))
+	}
+	return out
+}
+
+// c07ParseSet: the config cases the real parseConfig yields for a shipped config
+// file (file, under testing/) or for the given YAML text.
+func c07ParseSet(t *testing.T, label, file, yaml string) *c07CfgSet {
+	t.Helper()
+	data := []byte(yaml)
+	if file != "" {
+		var err error
+		data, err = os.ReadFile(filepath.Join("..", "..", "..", "testing", file))
 		if err != nil {
-			t.Fatalf("config %s: %v", s.label, err)
+			data, err = os.ReadFile(filepath.Join(os.Getenv("VERIF_REPO"), "testing", file))
 		}
-		mirror := make([]c07CC, 0, len(cases))
-		for _, c := range cases {
-			if c.ConnectVersionMode != 0 {
-				t.Fatalf("config %s produced a case with a connect version mode", s.label)
-			}
-			mirror = append(mirror, c07Mirror(c))
+		if err != nil {
+			t.Fatalf("cannot read shipped config %s: %v", file, err)
 		}
-		c07SortCases(mirror)
-		out = append(out, c07NewSet("cfg:"+s.label, mirror))
+	}
+	cases, err := parseConfig(label, data)
+	if err != nil {
+		t.Fatalf("config %s: %v", label, err)
+	}
+	mirror := make([]c07CC, 0, len(cases))
+	for _, c := range cases {
+		if c.ConnectVersionMode != 0 {
+			t.Fatalf("config %s produced a case with a connect version mode", label)
+		}
+		mirror = append(mirror, c07Mirror(c))
+	}
+	c07SortCases(mirror)
+	return c07NewSet("cfg:"+label, mirror)
+}
+
+// Configs for phase H. all-features: everything a config file can switch on is
+// on, in particular supports_half_duplex_bidi_over_http1 (off by default: the
+// only feature that adds a (protocol, version, stream type) triple), so that the
+// set holds every triple a config can produce. h1-half-duplex: a small set with
+// half-duplex streams over HTTP/1.1 for Connect and gRPC-Web, part of the named
+// sets of both tiers.
+const (
+	c07AllFeaturesYAML = "features:\n" +
+		"  versions: [HTTP_VERSION_1, HTTP_VERSION_2, HTTP_VERSION_3]\n" +
+		"  protocols: [PROTOCOL_CONNECT, PROTOCOL_GRPC, PROTOCOL_GRPC_WEB]\n" +
+		"  codecs: [CODEC_PROTO, CODEC_JSON]\n" +
+		"  compressions: [COMPRESSION_IDENTITY, COMPRESSION_GZIP]\n" +
+		"  streamTypes: [STREAM_TYPE_UNARY, STREAM_TYPE_CLIENT_STREAM, STREAM_TYPE_SERVER_STREAM, STREAM_TYPE_HALF_DUPLEX_BIDI_STREAM, STREAM_TYPE_FULL_DUPLEX_BIDI_STREAM]\n" +
+		"  supportsH2c: true\n  supportsTls: true\n  supportsTlsClientCerts: true\n  supportsTrailers: true\n" +
+		"  supportsHalfDuplexBidiOverHttp1: true\n  supportsConnectGet: true\n  supportsMessageReceiveLimit: true\n"
+	c07H1HalfDuplexYAML = "features:\n  versions: [HTTP_VERSION_1]\n  protocols: [PROTOCOL_CONNECT, PROTOCOL_GRPC_WEB]\n" +
+		"  compressions: [COMPRESSION_IDENTITY]\n  supportsTls: false\n  supportsHalfDuplexBidiOverHttp1: true\n" +
+		"  supportsConnectGet: false\n  supportsMessageReceiveLimit: false\n"
+)
+
+// c07Triples: the distinct (protocol, version, stream type) triples of a set.
+func c07Triples(cases []c07CC) map[[3]int32]bool {
+	out := map[[3]int32]bool{}
+	for _, cc := range cases {
+		out[[3]int32{cc.P, cc.V, cc.S}] = true
 	}
 	return out
 }
@@ -1570,6 +1804,12 @@ type c07Plan struct {
 	reqCases     [][]c07TC // phase G: request-level fields of the test-case template
 	reqDirs      []c07Suite
 	reqSets      []*c07CfgSet
+	streamSets   []*c07CfgSet // phase H: every (protocol, version, stream type) triple
+	streamDirs   []c07Suite
+	streamCases  [][]c07TC
+	fileLoads    [][]c07Suite // phase I: several suite files in one load
+	fileSets     []*c07CfgSet
+	extraSets    []*c07CfgSet // sets outside plan.named (looked up by label on replay)
 }
 
 // c07PrefillBlock: test-case sets with pre-filled runner-owned fields, the
@@ -1600,6 +1840,7 @@ func c07MakePlan(t *testing.T, thorough bool) *c07Plan {
 		plan.caseSetsB = [][]c07TC{small[1]}
 		plan.named = named[:len(named)-1] // the (large) reference-impls set only in the thorough tier
 	}
+	plan.named = append(plan.named[:len(plan.named):len(plan.named)], c07ParseSet(t, "h1-half-duplex", "", c07H1HalfDuplexYAML))
 	tier := "quick"
 	if thorough {
 		tier = "thorough"
@@ -1625,6 +1866,18 @@ func c07MakePlan(t *testing.T, thorough bool) *c07Plan {
 	plan.multiCases = [][]c07TC{small[0], small[1]}
 	plan.twinCaseSets = [][]c07TC{small[0], small[1]}
 	plan.shapes = c07ShapeInputs()
+	// phase H: config-case sets complete in (protocol, version, stream type): the full cross product
+	// (one codec, one compression, every flag combination) and what parseConfig yields with every feature on
+	plan.streamSets = []*c07CfgSet{
+		c07NewSet("universe/streams", c07Universe([]int32{1, 2, 3}, []int32{1, 2, 3}, []int32{1}, []int32{1}, []int32{1, 2, 3, 4, 5})),
+		c07ParseSet(t, "all-features", "", c07AllFeaturesYAML),
+	}
+	plan.streamDirs = plan.twinBase
+	plan.streamCases = c07StreamCaseSets()
+	// phase I: several suite files in one load, through the file-level route
+	plan.fileLoads = c07FileLoads()
+	plan.fileSets = []*c07CfgSet{named[4], named[8]} // connect-h1-plain (12 cases), include-exclude (56 cases, TLS and plain, three protocols)
+	plan.extraSets = plan.streamSets
 	plan.shapeSets = []*c07CfgSet{plan.named[0], named[3]}
 	// the two mixed sets: every directive combination, whole reduced universe and default config;
 	// thorough, one set per template on all stream types: the quick directive list, whole universe
@@ -1660,7 +1913,7 @@ func c07Report(r *rep.Report, in *c07Input, res c07Result) {
 func TestVerifC07(t *testing.T) {
 	r := rep.New("c07-enum")
 	defer r.Write()
-	r.Rule = "odometer over suite directives (mode x relevant protocols/versions/codecs/compressions subsets x the 16 relies-on combinations) x test-case sets (1-3 tests, 5 stream types, default/explicit service+method) x config-case sets (whole reduced universe, sets parsed from shipped/typical configs, every singleton of a reduced universe) x 3 run modes, plus two-suite loads whose twin differs in name and/or mode, plus every directive combination with test-case sets that pre-fill the runner-owned request fields (9 templates: client_tls_creds, server_tls_cert, http_version/protocol/codec/compression/message_receive_limit at low, middle and high values) against the universe and the default config, plus suites listing two or three values on an axis (compressions {identity,gzip}, {gzip,identity}, {gzip,br}, {identity,zstd}, {identity,gzip,zstd} x 4 protocol x 4 version x 3 codec selections x 4 relies-on combinations) against the universe and the named sets, plus pairs of suites with path-shaped names (suite names Echo, Echo/v2, Echo/v2/x, Alpha x test names ping, v2/ping, x/ping, v2/x/ping, ../Echo/ping, ../Echo/v2/ping; every axis pinned and relies_on_tls so that no component separates suite and test name, TLS left open in one or both, fully open; same / different stream type) against the universe and the default config, where a load is either refused or holds exactly one permutation per admitted (test, config case) pair, identically on five expansions, plus the request-level fields of the test-case template (use_get_http_method false / true x service x method each absent / present but empty / set, on every stream type, also with pre-filled protocol markers) x every relies-on combination, mode and protocol subset against the universe and the default config; every element is distinct by construction; it is non-trivial when the reference iff admits at least one permutation (the others check that nothing is produced)"
+	r.Rule = "odometer over suite directives (mode x relevant protocols/versions/codecs/compressions subsets x the 16 relies-on combinations) x test-case sets (1-3 tests, 5 stream types, default/explicit service+method) x config-case sets (whole reduced universe, sets parsed from shipped/typical configs, every singleton of a reduced universe) x 3 run modes, plus two-suite loads whose twin differs in name and/or mode, plus every directive combination with test-case sets that pre-fill the runner-owned request fields (9 templates: client_tls_creds, server_tls_cert, http_version/protocol/codec/compression/message_receive_limit at low, middle and high values) against the universe and the default config, plus suites listing two or three values on an axis (compressions {identity,gzip}, {gzip,identity}, {gzip,br}, {identity,zstd}, {identity,gzip,zstd} x 4 protocol x 4 version x 3 codec selections x 4 relies-on combinations) against the universe and the named sets, plus pairs of suites with path-shaped names (suite names Echo, Echo/v2, Echo/v2/x, Alpha x test names ping, v2/ping, x/ping, v2/x/ping, ../Echo/ping, ../Echo/v2/ping; every axis pinned and relies_on_tls so that no component separates suite and test name, TLS left open in one or both, fully open; same / different stream type) against the universe and the default config, where a load is either refused or holds exactly one permutation per admitted (test, config case) pair, identically on five expansions, plus the request-level fields of the test-case template (use_get_http_method false / true x service x method each absent / present but empty / set, on every stream type, also with pre-filled protocol markers) x every relies-on combination, mode and protocol subset against the universe and the default config, plus suites with a test case of every stream type x the reduced directive list against config-case sets holding every (protocol, version, stream type) triple (full cross product of 3 protocols x 3 versions x 5 stream types x every flag combination; the set parseConfig yields with every feature on incl. supports_half_duplex_bidi_over_http1), plus loads of two or three suite files along the file-level routes (testsuites.LoadTestSuitesFromFiles + parseTestSuites on files written to disk; parseTestSuites on the file contents) in six directory layouts (distinct names in one directory, one file name in several directories, nested, suffix-related paths, mixed, case-differing) x every mode assignment x directive shapes, where the result must equal the model, be identical on five loads with the paths re-ordered and equal newTestCaseLibrary called directly with the same suites; every element is distinct by construction; it is non-trivial when the reference iff admits at least one permutation (the others check that nothing is produced)"
 	thorough := rep.Thorough()
 	plan := c07MakePlan(t, thorough)
 
@@ -1677,7 +1930,7 @@ func TestVerifC07(t *testing.T) {
 			set = c07NewSet(in.CfgSet, in.Cases)
 		} else {
 			other := c07MakePlan(t, !thorough)
-			for _, cand := range append(append([]*c07CfgSet{}, plan.named...), other.named...) {
+			for _, cand := range append(append(append([]*c07CfgSet{}, plan.named...), other.named...), plan.extraSets...) {
 				if cand.Label == in.CfgSet && set == nil {
 					set = cand
 				}
@@ -1698,6 +1951,7 @@ func TestVerifC07(t *testing.T) {
 		for _, v := range res.verdicts {
 			fmt.Printf("VERDICT %s: %s\n", v.key, v.detail)
 		}
+		in.cleanup()
 		in.Cases = set.Mirror
 		c07Report(r, &in, res)
 		return
@@ -1733,6 +1987,13 @@ func TestVerifC07(t *testing.T) {
 	r.Extra["named_set_sizes"] = sizes
 
 	var k, mine int64
+	// Development aid (mutation self-tests on a loaded machine): VERIF_C07_PHASES=AE
+	// runs only the named phases; such a run is never reported as exhaustive.
+	onlyPhases := os.Getenv("VERIF_C07_PHASES")
+	if onlyPhases != "" {
+		r.NotExhaustive("phases restricted by VERIF_C07_PHASES=" + onlyPhases)
+	}
+	skipPhase := func(p string) bool { return onlyPhases != "" && !strings.Contains(onlyPhases, p) }
 
 	// Order: cheapest config-case sets first (singletons, then the two-suite
 	// loads, then the large named sets), so that a budget cut under load
@@ -1742,6 +2003,9 @@ func TestVerifC07(t *testing.T) {
 	r.Extra["suite_pairs_phaseF"] = len(plan.shapes)
 phaseF:
 	for si := range plan.shapes {
+		if skipPhase("F") {
+			break
+		}
 		k++
 		if !r.Mine(k) {
 			continue
@@ -1764,12 +2028,95 @@ phaseF:
 	}
 	r.Count("phaseF ms (this shard summed)", time.Since(startF).Milliseconds())
 
+	// Phase H: config-case sets that hold every (protocol, version, stream type)
+	// triple - the full cross product and what parseConfig yields with every feature
+	// on (half-duplex streams over HTTP/1.1 included) - x suites with a test case of
+	// every stream type x the reduced directive list.
+	startH := time.Now()
+	r.Extra["suites_phaseH"] = len(plan.streamDirs) * len(plan.streamCases)
+	triples := map[string]int{}
+	for _, set := range plan.streamSets {
+		triples[set.Label] = len(c07Triples(set.Mirror))
+		sizes[set.Label] = len(set.Mirror)
+	}
+	r.Extra["phaseH_protocol_version_stream_triples"] = triples
+	r.Extra["phaseH_all_features_has_grpcweb_h1_half_duplex"] = c07Triples(plan.streamSets[1].Mirror)[[3]int32{c07GRPCWeb, 1, 4}]
+phaseH:
+	for ci, cases := range plan.streamCases {
+		if skipPhase("H") {
+			break
+		}
+		for di := range plan.streamDirs {
+			k++
+			if !r.Mine(k) {
+				continue
+			}
+			if expired() {
+				break phaseH
+			}
+			r.Count("phaseH suites done", 1)
+			suite := plan.streamDirs[di]
+			suite.Cases = cases
+			for _, set := range plan.streamSets {
+				for _, mode := range runModes {
+					in := c07Input{Suites: []c07Suite{suite}, CfgSet: set.Label, RunMode: mode}
+					res := c07Evaluate(&in, set, 2, false)
+					c07Report(r, &in, res)
+					r.Count("phaseH evaluations", 1)
+				}
+			}
+			if di == (len(plan.streamDirs)/5)*(ci+1) {
+				r.Sample(c07Input{Suites: []c07Suite{suite}, CfgSet: plan.streamSets[ci%2].Label, RunMode: runModes[ci%3]})
+			}
+		}
+	}
+	r.Count("phaseH ms (this shard summed)", time.Since(startH).Milliseconds())
+
+	// Phase I: two or three suite files in one load, along the file-level routes
+	// (files on disk through LoadTestSuitesFromFiles + parseTestSuites; file contents
+	// through parseTestSuites), in several directory layouts.
+	startI := time.Now()
+	r.Extra["file_loads_phaseI"] = len(plan.fileLoads)
+phaseI:
+	for li := range plan.fileLoads {
+		if skipPhase("I") {
+			break
+		}
+		for _, route := range []string{"files", "parse"} {
+			k++
+			if !r.Mine(k) {
+				continue
+			}
+			if expired() {
+				break phaseI
+			}
+			r.Count("phaseI loads done", 1)
+			in := c07Input{Suites: plan.fileLoads[li], Route: route}
+			for _, set := range plan.fileSets {
+				for _, mode := range runModes {
+					in.CfgSet, in.RunMode = set.Label, mode
+					res := c07Evaluate(&in, set, 5, false)
+					c07Report(r, &in, res)
+					r.Count("phaseI evaluations", 1)
+				}
+			}
+			in.cleanup()
+			if li == len(plan.fileLoads)/3 || li == 2*len(plan.fileLoads)/3 {
+				r.Sample(c07Input{Suites: plan.fileLoads[li], CfgSet: plan.fileSets[0].Label, RunMode: runModes[li%3], Route: route})
+			}
+		}
+	}
+	r.Count("phaseI ms (this shard summed)", time.Since(startI).Milliseconds())
+
 	// Phase G: request-level fields of the test-case template (use_get_http_method,
 	// service and method absent / present but empty / set) x directive combinations.
 	startG := time.Now()
 	r.Extra["suites_phaseG"] = len(plan.reqDirs) * len(plan.reqCases)
 phaseG:
 	for ci, cases := range plan.reqCases {
+		if skipPhase("G") {
+			break
+		}
 		for di := range plan.reqDirs {
 			k++
 			if !r.Mine(k) {
@@ -1800,6 +2147,9 @@ phaseG:
 	startB := time.Now()
 phaseB:
 	for _, cases := range plan.caseSetsB {
+		if skipPhase("B") {
+			break
+		}
 		for di := range plan.directives {
 			k++
 			if !r.Mine(k) {
@@ -1830,6 +2180,9 @@ phaseB:
 	startC := time.Now()
 phaseC:
 	for _, cases := range plan.twinCaseSets {
+		if skipPhase("C") {
+			break
+		}
 		for di := range plan.twinBase {
 			k++
 			if !r.Mine(k) {
@@ -1875,6 +2228,9 @@ phaseC:
 	startD := time.Now()
 phaseD:
 	for _, block := range plan.prefill {
+		if skipPhase("D") {
+			break
+		}
 		for ci, cases := range block.cases {
 			for di := range block.directives {
 				k++
@@ -1908,6 +2264,9 @@ phaseD:
 	startE := time.Now()
 phaseE:
 	for ci, cases := range plan.multiCases {
+		if skipPhase("E") {
+			break
+		}
 		for di := range plan.multi {
 			k++
 			if !r.Mine(k) {
@@ -1938,6 +2297,9 @@ phaseE:
 	startA := time.Now()
 phaseA:
 	for ci, cases := range plan.caseSetsA {
+		if skipPhase("A") {
+			break
+		}
 		for di := range plan.directives {
 			k++
 			if !r.Mine(k) {
